@@ -45,6 +45,37 @@ def history(rng, fractional=True):
         strict = rng.random() < 0.35        # strict orderings put epsilons into the planned times
         lines.append(f"{b}.{pb} {'>' if strict else '>='} {a}.{pa}" + (f" + {num_text(off)}" if off else "") + ";")
         cons.append(("gt" if strict else "ge", (b, pb), (a, pa), off))
+    # deadlines and alternative orderings: without them no delay ever makes the plan infeasible, so the executor never has
+    # to backtrack and re-plan around what is already running (delay -> start -> backtracking is where frozen values matter)
+    ivs = [nm for nm, kd in atoms if kd != "B"]
+    flip = None
+    if len(ivs) >= 2 and rng.random() < 0.4:
+        x, a = rng.sample(ivs, 2)
+        k2 = F(rng.randint(2, 8))
+        lines.append("{ " + f"{a}.start >= {x}.end;" + " } or { " + f"{x}.start >= {a}.end; {a}.start >= {num_text(k2)};" + " }")
+        cons.append(("or", [[("ge", (a, "start"), (x, "end"), F(0))],
+                            [("ge", (x, "start"), (a, "end"), F(0)), ("lb", (a, "start"), k2)]]))
+        if rng.random() < 0.7:
+            k = F(rng.randint(5, 14))
+            lines.append(f"{a}.end <= {num_text(k)};")
+            cons.append(("ub", (a, "end"), k))
+        flip = (x, a)
+    local = None
+    if ivs and rng.random() < 0.35:
+        # two alternative sub-plans with their own (unnamed) goals around a named interval: the harness labels unnamed atoms
+        # n<k> in order of first appearance, the first one right after the named ones; failing it leaves the other alternative
+        x = rng.choice(ivs)
+        k2 = F(rng.randint(2, 8))
+        d1, d2 = F(rng.randint(1, 3)), F(rng.randint(1, 3))
+        lines.append("{ " + f"goal g = new A(x: 7.0); g.duration >= {num_text(d1)}; g.start >= {x}.end;" + " } or { "
+                     + f"goal g = new A(x: 8.0); g.duration >= {num_text(d2)}; {x}.start >= g.end; g.start >= {num_text(k2)};" + " }")
+        local = x
+    for nm, kd in atoms:
+        if rng.random() < 0.15:
+            k = F(rng.randint(6, 18))
+            pt = "at" if kd == "B" else "end"
+            lines.append(f"{nm}.{pt} <= {num_text(k)};")
+            cons.append(("ub", (nm, pt), k))
     text = "\n".join(lines) + "\n"
     # the script
     upt = rng.choice([F(1), F(1), F(1), F(2), F(1, 2)]) if fractional else F(1)
@@ -64,6 +95,17 @@ def history(rng, fractional=True):
             steps.insert(rng.randint(0, len(steps)), f"ps:{name}:{qtxt(amt)}")
         else:
             steps.insert(rng.randint(0, len(steps)), f"pe:{name}:{qtxt(amt)}")
+    if flip is not None and rng.random() < 0.7:
+        # delay the first atom of the alternative (its start, then its end) so that the other ordering becomes the only one
+        x, a = flip
+        if rng.random() < 0.6:
+            extra.append(f"ds:{rng.randint(1, 3)}:{x}:{qtxt(F(rng.randint(1, 3)))}")
+        for _ in range(rng.randint(1, 3)):
+            extra.append(f"de:{rng.randint(2, nt)}:{x}:{qtxt(F(rng.randint(1, 6)))}")
+    if local is not None and rng.random() < 0.8:
+        if rng.random() < 0.6:
+            extra.append(f"ds:{rng.randint(1, 3)}:{local}:{qtxt(F(rng.randint(1, 3)))}")
+        steps.insert(rng.randint(2, len(steps)), f"f:n{len(atoms) + rng.randint(0, 2)}")
     if rng.random() < 0.15:
         name, kind = rng.choice(atoms)
         steps.insert(rng.randint(1, len(steps)), f"f:{name}")
